@@ -294,6 +294,13 @@ def run(ctx):
     store.parallel(ctx, work_store, pairs)
     store.parallel(ctx, work_mixed_kinds, [(k, md[k]['latest_version']) for k in mixed])
     store.parallel(ctx, work_generated, [ctx.seed * 173 + i for i in range(ctx.budget(80, 4000))])
+    # H and He are calendarised by a rule of their own: selections that hold one of them without the other, or neither
+    for nm in ('aug-cc-pvtz', 'aug-cc-pvqz'):
+        if nm in md:
+            for els in ([2, 10], [1, 8], [2], [6, 7]):
+                r = store.get_basis(nm, md[nm]['latest_version'], elements=els)
+                if r[0] == 'ok':
+                    chain_ok(ctx, '%s%s' % (nm, els), md[nm]['latest_version'], r[1])
 
 
 def replay(ctx, rec):
